@@ -75,10 +75,39 @@ class Impl:
         except Exception:  # noqa: BLE001
             return None, "shape"
 
+    def spec_traced(self, angle, tol):
+        """spec() plus the values of the locals `rest` and `tol_rest` inside the running
+        implementation at the first line executed after `nds` is bound (= loop entry), read by a
+        sys.settrace line tracer.  obs = (rest, tol_rest) as floats, or None if those locals do not exist."""
+        import sys
+        code = self.fn.__code__
+        box = {}
+
+        def local(frame, event, arg):
+            if event == "line" and "obs" not in box:
+                loc = frame.f_locals
+                if "nds" in loc and "rest" in loc and "tol_rest" in loc:
+                    try:
+                        box["obs"] = (float(loc["rest"]), float(loc["tol_rest"]))
+                    except Exception:  # noqa: BLE001
+                        box["obs"] = None
+            return local
+
+        def tracer(frame, event, arg):
+            return local if frame.f_code is code else None
+
+        sys.settrace(tracer)
+        try:
+            got, st = self.spec(angle, tol)
+        finally:
+            sys.settrace(None)
+        return got, st, box.get("obs")
+
     def emit(self, rots):
-        """rots: [(axis 'X'|'Y'|'Z', angle)].  Builds a real connection, applies the
-        rotations to one qubit, flushes, decodes the committed bytes again and
-        returns [(mnemonic, n, d)] of every rotation instruction, or None if the SDK raised."""
+        """rots: [dict(axis 'X'|'Y'|'Z', n, d, angle)] where n, d, angle may be absent (= not passed).
+        Builds a real connection, applies the rotations to one qubit with a Hadamard after
+        each one as a separator, flushes, decodes the committed bytes again and returns one
+        segment [(mnemonic, n, d)] per rotation call, or None if the SDK raised."""
         SubroutineMessage, deserialize_host_msg, deserialize, Base, Debug, Qubit, SMM = self._b
 
         def go():
@@ -88,17 +117,24 @@ class Impl:
             conn = Debug("Alice")
             with conn:
                 q = Qubit(conn)
-                for ax, a in rots:
-                    getattr(q, "rot_" + ax)(angle=a)
+                for r in rots:
+                    kw = {k: r[k] for k in ("n", "d", "angle") if k in r and not (k == "angle" and r[k] is None)}
+                    getattr(q, "rot_" + r["axis"])(**kw)
+                    q.H()
                 conn.flush()
-            out = []
+            segs, cur = [], []
             for raw in conn.storage:
                 m = deserialize_host_msg(raw)
                 if isinstance(m, SubroutineMessage):
                     for i in deserialize(m.subroutine).instructions:
                         if i.mnemonic.startswith("rot_"):
-                            out.append((i.mnemonic, int(i.angle_num.value), int(i.angle_denom.value)))
-            return out
+                            cur.append((i.mnemonic, int(i.angle_num.value), int(i.angle_denom.value)))
+                        elif i.mnemonic == "h":
+                            segs.append(cur)
+                            cur = []
+            if cur or len(segs) != len(rots):
+                raise RuntimeError("separator instructions do not match the calls")
+            return segs
 
         import logging
         logging.disable(logging.CRITICAL)
@@ -228,21 +264,70 @@ def gen_cases(rng, n_random, with_large=True):
     return cs
 
 
+ND_PAIRS = [(3, 1), (1, 0), (1, 1), (255, 255), (0, 5), (7, 0), (128, 7), (5, 31), (200, 40)]
+
+
 def gen_builder_cases(rng, n):
-    """[[(axis, angle)]]: 1..3 rotations on one qubit per connection"""
+    """[[dict(axis, n?, d?, angle?)]]: 1..3 rotation calls on one qubit per connection.
+    Three routes: angle only; angle together with non-default n, d (the documentation: n and d are
+    ignored when an angle is given); n, d only (must be emitted verbatim)."""
+    two_pi = 2 * math.pi
     out = []
-    specials = [0.3, -1.0, math.pi / 3, 1.5, -1e-20, 0.99e-4 * math.pi, 2 * math.pi, -math.pi / 4, 1e-5, 6.283185307179585]
+    specials = [0.3, -1.0, math.pi / 3, 1.5, -1e-20, 0.99e-4 * math.pi, two_pi, -math.pi / 4, 1e-5, 6.283185307179585]
     for a in specials:
-        out.append([(rng.choice("XYZ"), a)])
+        out.append([dict(axis=rng.choice("XYZ"), angle=a)])
+    # angle given TOGETHER with n, d: zero of every kind, tiny, whole turns, ordinary
+    zeros = [0.0, -0.0, 0, 5e-324, -5e-324, 1e-20, -1e-20, 1e-9, -1e-9, 3e-5, -3e-5, two_pi, -two_pi, 2 * two_pi,
+             -3 * two_pi, nxt(two_pi, -1), nxt(two_pi, 1), 10 * two_pi, 1.0, -2.5, math.pi]
+    for a in zeros:
+        for (nn, dd) in rng.sample(ND_PAIRS, 3):
+            out.append([dict(axis=rng.choice("XYZ"), n=nn, d=dd, angle=a)])
+        out.append([dict(axis=rng.choice("XYZ"), n=3, d=1, angle=a)])
+        out.append([dict(axis=rng.choice("XYZ"), angle=a)])
+    # n, d only
+    for (nn, dd) in ND_PAIRS + [(0, 0), (255, 0), (0, 255), (1, 255), (17, 4)]:
+        out.append([dict(axis=rng.choice("XYZ"), n=nn, d=dd)])
+    out.append([dict(axis="Z")])                       # all defaults: rot_z q 0 0
+    for bad in [(256, 0), (0, 256), (300, 1), (1, 1000)]:   # not encodable: must be refused, never altered
+        out.append([dict(axis=rng.choice("XYZ"), n=bad[0], d=bad[1])])
     for _ in range(n):
         rots = []
         for _ in range(rng.randint(1, 3)):
             r = rng.random()
-            a = rng.uniform(0, 2 * math.pi) if r < 0.5 else rng.uniform(-20, 20) if r < 0.9 else rng.choice(
-                [-1, 1]) * 10 ** rng.uniform(-8, -2)
-            rots.append((rng.choice("XYZ"), a))
+            a = rng.uniform(0, two_pi) if r < 0.45 else rng.uniform(-20, 20) if r < 0.8 else rng.choice(
+                [-1, 1]) * 10 ** rng.uniform(-8, -2) if r < 0.9 else rng.choice(zeros)
+            m = rng.random()
+            if m < 0.4:
+                rots.append(dict(axis=rng.choice("XYZ"), angle=a))
+            elif m < 0.75:
+                rots.append(dict(axis=rng.choice("XYZ"), n=rng.randint(0, 255), d=rng.randint(0, 255), angle=a))
+            else:
+                rots.append(dict(axis=rng.choice("XYZ"), n=rng.randint(0, 255), d=rng.choice([0, 1, 2, 3, 8, 31, 32, 255, rng.randint(0, 255)])))
         out.append(rots)
     return out
+
+
+def rot_json(r):
+    """JSON form of one rotation call: the angle as float.hex() (ints as 'int:<n>')"""
+    o = dict(axis=r["axis"])
+    for k in ("n", "d"):
+        if k in r:
+            o[k] = r[k]
+    if r.get("angle") is not None:
+        a = r["angle"]
+        o["angle"] = ("int:%d" % a) if type(a) is int else float(a).hex()
+        o["angle_repr"] = repr(a)
+    return o
+
+
+def rot_from_json(o):
+    r = dict(axis=o["axis"])
+    for k in ("n", "d"):
+        if k in o:
+            r[k] = o[k]
+    if "angle" in o:
+        r["angle"] = int(o["angle"][4:]) if o["angle"].startswith("int:") else float.fromhex(o["angle"])
+    return r
 
 
 # --------------------------------------------------------------------- Coq case files
@@ -279,6 +364,52 @@ def parse_failing(out):
         return None
     txt = m.group(1).replace("%Z", "")
     return [(int(a), int(b)) for a, b in re.findall(r"\((-?\d+),\s*(-?\d+)\)", txt)]
+
+
+def front_replica(angle, tol):
+    """the four front-end statements of the repaired code, re-executed (used only when the
+    implementation's locals cannot be observed)"""
+    import numpy as np
+    a = angle % (2 * np.pi)
+    rest = a / np.pi
+    if rest >= 2:
+        rest -= 2
+    return float(rest), float(tol / np.pi)
+
+
+def flit(x):
+    h = float(x).hex()
+    return f"({h})%float"
+
+
+FCASE_HEADER = """From Coq Require Import ZArith QArith List Floats.PrimFloat.
+From NQ Require Import Num.Angle Num.AngleFloat Num.AngleCheck.
+Import ListNotations.
+"""
+
+
+def correspond_front(ctx, fcases, per_file=1000):
+    """fcases: [(angle, tol, rest, thr)] floats -> {index: bits} for bits != 0; None if a file did not compile."""
+    files = []
+    for i in range(0, len(fcases), per_file):
+        name = f"fcases_{i // per_file:04d}.v"
+        with open(os.path.join(ctx.build, name), "w") as f:
+            f.write(FCASE_HEADER)
+            f.write("Definition cases : list fcase :=\n [" + ";\n  ".join(
+                f"mkF {flit(a)} {flit(t)} {flit(r)} {flit(h)}" for a, t, r, h in fcases[i:i + per_file]) + "].\n")
+            f.write("Eval vm_compute in (ffailing cases).\n")
+        files.append((name, i))
+    res = ctx.run_case_files([f for f, _ in files], timeout=900, jobs=14)
+    codes = {}
+    for name, base in files:
+        r = res[name]
+        fl = parse_failing(r.out) if r.ok else None
+        if fl is None:
+            ctx.broken.append(f"case file {name} did not evaluate: {r.err.strip()[-300:]}")
+            return None
+        for i, c in fl:
+            codes[base + i] = c
+    return codes
 
 
 def correspond(ctx, cases, per_file=500):
